@@ -71,9 +71,7 @@ pub fn check(text: &str, ordering: &Option<Ordering>) -> Check {
         return Err(v("HARNESS: references are outside C09".into()));
     }
     let idents = rlex::identifiers(&parsed.tokens);
-    let want_vars = expected_ids(&idents, ordering);
     let fv: BTreeSet<String> = parsed.ast.free_vars();
-    let want_free: Vec<(String, usize)> = want_vars.iter().filter(|(n, _)| fv.contains(n)).cloned().collect();
     let limit = (1usize << std::cmp::min(idents.len(), 16)) + 2;
     guarded(&cj.clone(), || {
         let (r, pf) = match front::run_text(text.as_bytes(), to_symbols(ordering), Some(limit)) {
@@ -83,19 +81,39 @@ pub fn check(text: &str, ordering: &Option<Ordering>) -> Check {
             Run::Ok(r, pf) => (r, pf),
         };
         let got_vars: Vec<(String, usize)> = pf.vars.iter().map(|s| (s.name.as_ref().clone(), s.id)).collect();
-        if got_vars != want_vars {
+        // every identifier of the text exactly once, in variable (id) order, ids distinct
+        let mut got_names: Vec<&String> = got_vars.iter().map(|x| &x.0).collect();
+        got_names.sort();
+        let mut want_names: Vec<&String> = idents.iter().collect();
+        want_names.sort();
+        if got_names != want_names {
             return Err(v(format!(
-                "full variable list {:?} differs from every identifier of the text once, in variable order {:?}",
-                got_vars, want_vars
+                "full variable list {:?} is not every identifier of the text exactly once ({:?})",
+                got_vars, idents
             )));
         }
+        if got_vars.windows(2).any(|w| w[0].1 >= w[1].1) {
+            return Err(v(format!("full variable list {:?} is not in strictly increasing variable order", got_vars)));
+        }
+        // names listed in the ordering carry exactly the ids the caller gave them
+        if let Some(o) = ordering {
+            for (n, id) in o {
+                if let Some((_, got)) = got_vars.iter().find(|(m, _)| m == n) {
+                    if got != id {
+                        return Err(v(format!("`{}` is listed with id {} in the ordering but carries id {}", n, id, got)));
+                    }
+                }
+            }
+        }
         let got_free: Vec<(String, usize)> = pf.free_vars.iter().map(|s| (s.name.as_ref().clone(), s.id)).collect();
+        let want_free: Vec<(String, usize)> = got_vars.iter().filter(|(n, _)| fv.contains(n)).cloned().collect();
         if got_free != want_free {
             return Err(v(format!(
-                "reported free variables {:?} but the variables with an occurrence outside every binder of their name are {:?}",
+                "reported free variables {:?} but the variables with an occurrence outside every binder of their name are, in variable order, {:?}",
                 got_free, want_free
             )));
         }
+        let want_vars = got_vars.clone();
         // the answer depends on free variables only
         for n in front::support_names(&r) {
             if !fv.contains(&n) {
@@ -176,7 +194,7 @@ fn gen_ordering(t: &mut Tape, idents: &[String]) -> Option<Ordering> {
 
 pub fn run(ctx: &mut Ctx) -> Result<(), Violation> {
     ctx.rule = "cases = (reference-free formula text, optional ordering as NamedSymbol vector with distinct names and distinct, possibly non-contiguous ids: permutation / subset / superset with unused names). Generator biased to names occurring both bound and free, binders on absent names, nested binders on one name, binder-only names, repeated list entries (name pool of 2..5). \
-                Oracle: textbook FV on the reference tree; identifiers numbered by first appearance (listed names keep the ordering's ids, others continue after the largest id). Checked: .vars == every identifier once in id order; .free_vars == FV in id order; support(eval()) within FV by name, node ids as expected; to_free_index(v) == position in free_vars. \
+                Oracle: textbook FV on the reference tree. Checked: .vars == every identifier of the text exactly once, ids strictly increasing, names listed in the ordering carry exactly the caller's ids (how unlisted names are numbered is not prescribed by the property and not judged); .free_vars == the FV members of .vars in the same order; support(eval()) within FV by name, node ids as expected; to_free_index(v) == position in free_vars. \
                 Non-trivial = a name is both bound and free, or a binder-only / vacuous binder exists, or an ordering with an unused or permuted name is supplied; distinct by (text, ordering)."
         .to_string();
 
